@@ -116,6 +116,8 @@ type interpreter struct {
 	wrapped         map[*value]iface
 	params          map[string]int
 	softFuelAt      int64
+	mapOrderSym     bool
+	mapOrderUsed    int
 	fuelIsViolation bool
 }
 
